@@ -4,7 +4,7 @@ CONSTANTS
   RetryOnAbort = FALSE
   Kinds = {"choice", "plain", "confirm"}
   MaxChoices = 2
-  NPool = 3
+  NPool = 2
   MaxLines = 2
   NAnswers = 6
   Attempts = {0, 1, 2, 3}
@@ -12,6 +12,7 @@ CONSTANTS
   Inter = {TRUE, FALSE}
   Multis = {FALSE, TRUE}
   Muts = {0}
+  RouteIds = {1, 2, 3, 4, 5, 6, 7, 8}
   Rounds = 1
 INVARIANT TypeOK
 INVARIANT H_sane
